@@ -245,3 +245,100 @@ Lemma mr_e_move_element_here_at h pos : mrp mv (e_move_element_here_at T tab_en 
 Proof. unfold e_move_element_here_at. mr_tac mv. Qed.
 
 End MoveOps.
+
+(* ------------------------------------------------------------------ the invariant under MoveRel *)
+Section MoveTransfer.
+Variable T : tables.
+
+Lemma eff_transfer_node w w' i n n' : w_nodes w i = Some n -> w_nodes w' i = Some n' -> n_files n' = n_files n ->
+  (forall p, n_parent n = PElem p -> n_files n = [] -> n_parent n' = PElem p /\ forall s, Eff w p s -> Eff w' p s) ->
+  forall s, Eff w i s -> Eff w' i s.
+Proof.
+  intros Hn Hn' Fs Hp s Hs. destruct Hs as [i n0 Hn0 Hne | i n0 p s Hn0 He Hpp Hs].
+  - assert (n0 = n) by congruence. subst n0. rewrite <- Fs. constructor; auto. congruence.
+  - assert (n0 = n) by congruence. subst n0. destruct (Hp p Hpp He) as (Hp' & Tr).
+    eapply Eff_up; eauto. congruence.
+Qed.
+
+Definition keepsA (w w' : world) (root i : id) : Prop :=
+  exists n n', w_nodes w i = Some n /\ w_nodes w' i = Some n' /\ Reach w root i /\
+    (forall s, Eff w i s -> Eff w' i s) /\
+    (forall p, n_parent n' = PElem p -> n_parent n = PElem p /\ forall s, Eff w p s -> Eff w' p s).
+
+Lemma move_classes mv w w' x x' : TreeInv w -> Core w' -> MoveRel mv w w' -> FilesInvM T w x ->
+  In x (w_models w) -> In x' (w_models w') -> mview x = mview x' ->
+  (forall y n, Reach w mv y -> w_nodes w y = Some n -> n_files n = []) ->
+  forall i, Reach w' (m_root x') i ->
+    (m_files x <> [] -> exists s, Eff w' i s) /\ (keepsA w w' (m_root x) i \/ Reach w mv i).
+Proof.
+  intros (C & NO & _) C' MR FIx Hx Hx' Hv Hsub. injection Hv as Hroot Hfiles.
+  assert (forall y n', w_nodes w' y = Some n' -> exists n, w_nodes w y = Some n /\ node_mv mv y n n') as Back.
+  { intros y n' Hn'. destruct (w_nodes w y) as [n|] eqn:Hn.
+    - destruct (mr_node _ _ _ MR _ _ Hn) as (n'' & Hn'' & K). assert (n'' = n') by congruence. subst. eauto.
+    - rewrite (mr_none _ _ _ MR _ Hn) in Hn'. discriminate. }
+  intros i Hr. rewrite <- Hroot in Hr. induction Hr as [H|p c Hp IH Hl].
+  - destruct (root_node _ _ C Hx) as (n & k & Hn & Hpn).
+    destruct (mr_node _ _ _ MR _ _ Hn) as (n' & Hn' & (Ty & Fs & _ & _)).
+    destruct (root_node _ _ C' Hx') as (n'' & k' & Hn'' & Hpn'). rewrite <- Hroot in Hn''. assert (n'' = n') by congruence. subst n''.
+    assert (forall s, Eff w (m_root x) s -> Eff w' (m_root x) s) as Tr.
+    { apply (eff_transfer_node w w' (m_root x) n n'); auto. intros p Hp' _. congruence. }
+    split.
+    + intros Hne. destruct (fi_eff _ _ _ FIx Hne (m_root x)) as (s & Hs); [constructor; exists n; auto|]. eauto.
+    + left. exists n, n'. split; [exact Hn|]. split; [exact Hn'|]. split; [constructor; exists n; auto|]. split; [exact Tr|].
+      intros p0 Hp0. congruence.
+  - destruct IH as (IHd & IHc).
+    destruct Hl as (pn' & Hpn' & Hc). destruct (Back _ _ Hpn') as (pn & Hpn & (_ & _ & _ & Kp)).
+    assert (lists w' p c) as Hl' by (exists pn'; auto).
+    destruct (c_up _ C' _ _ Hl') as (cn' & Hcn' & Hpar').
+    destruct (Back _ _ Hcn') as (cn & Hcn & (Tyc & Fsc & _ & _)).
+    assert (keepsA w w' (m_root x) c \/ Reach w mv c) as Cl.
+    { destruct (Kp c Hc) as [Hck|Ecm]; [|subst c; right; constructor; exists cn; auto].
+      assert (lists w p c) as Hlw by (exists pn; auto).
+      destruct IHc as [(pn0 & pn0' & Hpn0 & Hpn0' & Hrp & Trp & _)|Hbp]; [|right; eapply R_kid; eauto].
+      left. destruct (c_up _ C _ _ Hlw) as (cn0 & Hcn0 & Hparw). assert (cn0 = cn) by congruence. subst cn0.
+      exists cn, cn'. split; auto. split; auto. split; [eapply R_kid; eauto|]. split.
+      - apply (eff_transfer_node w w' c cn cn'); auto. intros p0 Hp0 _. assert (p0 = p) by congruence. subst. split; auto.
+      - intros p0 Hp0. assert (p0 = p) by congruence. subst. split; auto. }
+    split; auto.
+    intros Hne. destruct Cl as [(cn0 & cn0' & Hcn0 & Hcn0' & Hrc & Trc & _)|Hb].
+    + destruct (fi_eff _ _ _ FIx Hne c Hrc) as (s & Hs). eauto.
+    + destruct (IHd Hne) as (sp & Hsp). exists sp. eapply Eff_up; eauto.
+      rewrite Fsc. eapply Hsub; eauto.
+Qed.
+
+Theorem move_transfer mv w w' : TreeInv w -> Core w' -> MoveRel mv w w' -> FilesInv T w ->
+  (forall y n, Reach w mv y -> w_nodes w y = Some n -> n_files n = []) -> FilesInv T w'.
+Proof.
+  intros TI C' MR FI Hsub x' Hx'.
+  assert (exists x, In x (w_models w) /\ mview x = mview x') as (x & Hx & Hv).
+  { apply (in_map mview) in Hx'. rewrite (mr_models _ _ _ MR) in Hx'. apply in_map_iff in Hx' as (x & E & Hx). eauto. }
+  pose proof (FI x Hx) as FIx.
+  pose proof (move_classes mv w w' x x' TI C' MR FIx Hx Hx' Hv Hsub) as CL.
+  pose proof TI as (C & NO & _). injection Hv as Hroot Hfiles.
+  assert (forall y n', w_nodes w' y = Some n' -> exists n, w_nodes w y = Some n /\ node_mv mv y n n') as Back.
+  { intros y n' Hn'. destruct (w_nodes w y) as [n|] eqn:Hn.
+    - destruct (mr_node _ _ _ MR _ _ Hn) as (n'' & Hn'' & K). assert (n'' = n') by congruence. subst. eauto.
+    - rewrite (mr_none _ _ _ MR _ Hn) in Hn'. discriminate. }
+  constructor.
+  - intros i n' Hr Hn'. rewrite <- Hfiles. destruct (Back _ _ Hn') as (n & Hn & (_ & Fs & _ & _)). rewrite Fs.
+    destruct (CL i Hr) as (_ & [(n0 & n0' & Hn0 & _ & Hrw & _)|Hb]).
+    + assert (n0 = n) by congruence. subst. eapply (fi_sub _ _ _ FIx); eauto.
+    + rewrite (Hsub i n Hb Hn). intros g [].
+  - intros i n' p Hr Hn' Hne Hp. destruct (Back _ _ Hn') as (n & Hn & (_ & Fs & _ & _)).
+    destruct (CL i Hr) as (_ & [(n0 & n0' & Hn0 & Hn0' & Hrw & _ & Par)|Hb]).
+    + assert (n0 = n) by congruence. subst n0. assert (n0' = n') by congruence. subst n0'.
+      destruct (Par p Hp) as (Hpw & Trp).
+      destruct (fi_par _ _ _ FIx i n p Hrw Hn) as (s & Hs & Hi); try congruence.
+      exists s. split; auto. rewrite Fs. exact Hi.
+    + exfalso. apply Hne. rewrite Fs. eapply Hsub; eauto.
+  - intros i n' p pn' Hr Hn' Hne Hp Hpn'. destruct (Back _ _ Hn') as (n & Hn & (_ & Fs & _ & _)).
+    destruct (Back _ _ Hpn') as (pn & Hpn & (Typ & _)).
+    destruct (CL i Hr) as (_ & [(n0 & n0' & Hn0 & Hn0' & Hrw & _ & Par)|Hb]).
+    + assert (n0 = n) by congruence. subst n0. assert (n0' = n') by congruence. subst n0'.
+      destruct (Par p Hp) as (Hpw & _). eapply split_ok_type; eauto.
+      eapply (fi_split _ _ _ FIx i n p pn); eauto; congruence.
+    + exfalso. apply Hne. rewrite Fs. eapply Hsub; eauto.
+  - intros Hne i Hr. destruct (CL i Hr) as (Hd & _). apply Hd. congruence.
+Qed.
+
+End MoveTransfer.
